@@ -35,7 +35,7 @@ func runSharedInformerLifetime(c *eng.Ctx, r *eng.RuleCtx) {
 				return true
 			}
 			o := eng.CalleeOf(info, call)
-			if o == nil || o.Name() != "Run" || len(call.Args) != 1 {
+			if o == nil || nameOf(o) != "Run" || len(call.Args) != 1 {
 				return true
 			}
 			if fn, isF := o.(*types.Func); !isF || fn.Pkg() == nil || fn.Pkg().Path() != "k8s.io/client-go/tools/cache" {
